@@ -229,4 +229,108 @@ theorem accepted_of_rejected_nil {log : List (Item β × Bool)} (h : rejected lo
       simp at h ⊢
       simpa using ih (by simpa using h)
 
+/-! ## the schedule-level hypothesis gives the ghost flag -/
+
+theorem late_of_noreport {β : Type} (cfg : Cfg) (sched : List Ev) (st : St β)
+    (h : ∀ e ∈ sched, isReportEv e = false) : (run cfg st sched).late = st.late := by
+  induction sched generalizing st with
+  | nil => rfl
+  | cons e es ih =>
+    simp only [run]
+    rw [ih _ (fun x hx => h x (by simp [hx]))]
+    have he := h e (by simp)
+    cases e with
+    | report r => simp [isReportEv] at he
+    | recv tf =>
+      simp only [step]; split
+      · split
+        · split <;> rfl
+        · rfl
+      · rfl
+    | tick =>
+      simp only [step]; split
+      · split
+        · rfl
+        · split <;> rfl
+      · rfl
+    | spill k => simp only [step]; split <;> rfl
+    | cancel => rfl
+    | seeCancel =>
+      simp only [step]; split
+      · split <;> rfl
+      · rfl
+    | drain =>
+      simp only [step]; split <;> rfl
+
+theorem not_late {β : Type} (cfg : Cfg) (sched : List Ev) (st : St β) (hc : st.cancelled = false)
+    (hl : st.late = false) (h : NoReportAfterCancel sched) : (run cfg st sched).late = false := by
+  induction sched generalizing st with
+  | nil => exact hl
+  | cons e es ih =>
+    cases e with
+    | cancel =>
+      simp only [run]
+      rw [late_of_noreport cfg es _ h]
+      exact hl
+    | report r =>
+      simp only [run]
+      apply ih _ _ _ h
+      · simp only [step]; split
+        · exact hc
+        · split
+          · exact hc
+          · split <;> exact hc
+      · simp only [step]; split
+        · exact hl
+        · split
+          · simp [hl, hc]
+          · split
+            · exact hl
+            · simp [hl, hc]
+    | recv tf =>
+      simp only [run]
+      apply ih _ _ _ h
+      · simp only [step]; split
+        · split
+          · split <;> exact hc
+          · exact hc
+        · exact hc
+      · simp only [step]; split
+        · split
+          · split <;> exact hl
+          · exact hl
+        · exact hl
+    | tick =>
+      simp only [run]
+      apply ih _ _ _ h
+      · simp only [step]; split
+        · split
+          · exact hc
+          · split <;> exact hc
+        · exact hc
+      · simp only [step]; split
+        · split
+          · exact hl
+          · split <;> exact hl
+        · exact hl
+    | spill k =>
+      simp only [run]
+      apply ih _ _ _ h
+      · simp only [step]; split <;> exact hc
+      · simp only [step]; split <;> exact hl
+    | seeCancel =>
+      simp only [run]
+      apply ih _ _ _ h
+      · simp only [step]; split
+        · split <;> exact hc
+        · exact hc
+      · simp only [step]; split
+        · split <;> exact hl
+        · exact hl
+    | drain =>
+      simp only [run]
+      apply ih _ _ _ h
+      · simp only [step]; split <;> exact hc
+      · simp only [step]; split <;> exact hl
+
 end Pandora.Proofs.C06Queue
